@@ -230,8 +230,26 @@ def run_classify(case, tier):
     if wrong:
         res["violations"].append({"kind": "defective-variable-classified-effective", "key": None,
                                   "detail": f"variables {wrong} lie on (or depend on) a non-linear dependency cycle but are classified effective: their moment systems are infinite\n{case['text']}"})
+    # the same classification with type inference switched off (these loops have no finite variables, so nothing has to be declared):
+    # the dependency information must be computed whether or not types are inferred
+    try:
+        P.set_settings(disable_type_inference=True)
+        program2, _rb2 = P.prepare(case["text"])
+        eff2 = {str(v) for v in program2.effective_variables}
+        dfc2 = {str(v) for v in getattr(program2, "defective_variables", [])}
+        res["events"]["SolvabilityChecker.get_variables(disable_type_inference)"] = 1
+        res["comparisons"] += len(truth) + 1
+        wrong2 = sorted(v for v in truth if v in eff2 or v not in dfc2)
+        if wrong2:
+            res["violations"].append({"kind": "defective-variable-not-classified-defective", "key": None,
+                                      "detail": f"with --disable_type_inference the variables {wrong2} (on / depending on a non-linear cycle) are not reported defective "
+                                                f"(effective={sorted(eff2)}, defective={sorted(dfc2)})\n{case['text']}"})
+    except Exception as e:
+        res["refusals"].append("disable_type_inference:" + P.refusal_key(e))
+    finally:
+        P.reset_settings()
     res["nontrivial"] = bool(truth)
-    res["verdict"] = "violated" if wrong else "held"
+    res["verdict"] = "violated" if res["violations"] else "held"
     res["sample"] = {"program": case["text"], "truly_defective": sorted(truth), "classified_effective": sorted(eff)}
     return res
 
